@@ -81,6 +81,8 @@ type mon struct {
 	belowCommit    string
 	belowCommitSwp bool
 	swapSeen       bool
+	clock          *atomic.Int64 // the client history's logical clock (C01/C02 runs)
+	belowCommitAt  int64         // tick of the latest such election during or after a swap
 }
 
 func newMon(prop string, r *core.R, h *ctl.Harness) *mon {
@@ -94,6 +96,17 @@ func (m *mon) viol(sig, detail string) {
 		return
 	}
 	m.r.Violate(m.prop+"/"+sig, detail, map[string]any{"trace": m.h.Tail(60)})
+}
+
+// rootCauseFor is rootCause restricted to what that event can explain: the loss of something acknowledged before it.
+func (m *mon) rootCauseFor(ackedAt int64) (label, detail string) {
+	m.mu.Lock()
+	at := m.belowCommitAt
+	m.mu.Unlock()
+	if at == 0 || ackedAt >= at {
+		return "", ""
+	}
+	return m.rootCause()
 }
 
 // rootCause labels a client-level violation with the election-level event that explains it, if there was one.
@@ -197,6 +210,9 @@ func (m *mon) observe(h *ctl.Harness, r ctl.Rec, payload any) {
 				bad("leader-not-in-ensemble", fmt.Sprintf("leader %s, ensemble %v, removed %v", r.Node, ctl.Names(d.Ensemble), ctl.Names(d.RemovedNodes)))
 			}
 			lh, ok := del[r.Node]
+			if ok && lh.Offset < m.maxCommit && m.swapSeen && m.clock != nil {
+				m.belowCommitAt = m.clock.Add(1)
+			}
 			if ok && lh.Offset < m.maxCommit && m.belowCommit == "" {
 				m.belowCommit = fmt.Sprintf("BecomeLeader(%d) to %s whose log ends at (%d,%d) while a leader had reported commit offset %d; ensemble %v removed %v answers %v",
 					r.Term, r.Node, lh.Term, lh.Offset, m.maxCommit, ctl.Names(d.Ensemble), ctl.Names(d.RemovedNodes), ctl.SortedKeys(del))
@@ -707,12 +723,16 @@ func (s *sched) step(ghosts bool) {
 			time.Sleep(time.Duration(20+rng.IntN(80)) * time.Millisecond)
 			s.inc.SC.NodeBecameUnavailable(ctl.Server(ln))
 			time.Sleep(time.Duration(150+rng.IntN(300)) * time.Millisecond)
-			_ = c.Node(ln).Crash()
+			// it stays down for the next election: the others carry on without its tail
+			c.Node(ln).Stop()
 			s.unstallAll()
-			h.Note("leader %s crashed, links healed", ln)
+			h.Note("leader %s is down, links healed", ln)
 			r.Count("leaders_reelected_with_a_tail_then_failed", 1)
 			s.inc.SC.NodeBecameUnavailable(ctl.Server(ln))
-			s.waitSteady(time.Duration(300+rng.IntN(700)) * time.Millisecond)
+			s.waitSteady(time.Duration(500+rng.IntN(1000)) * time.Millisecond)
+			time.Sleep(time.Duration(rng.IntN(100)) * time.Millisecond)
+			_ = c.Node(ln).Restart()
+			h.Note("node %s is back", ln)
 		}
 	default:
 		s.level = []int{0, 20, 50, 100}[rng.IntN(4)]
